@@ -15,7 +15,7 @@ import itertools, os, re
 from vlib import core
 
 LEVEL = "model_checking"
-BUDGET = {"quick": 150, "thorough": 1500}
+BUDGET = {"quick": 900, "thorough": 3600}     # deadlines, not expected times
 
 # (cluster, near, fillers, filler_mode, maxlive, home): see harness/c17_bfs.c
 BFS_CONFIGS = {
